@@ -5,6 +5,7 @@ import (
 	"flag"
 	"fmt"
 	"os"
+	"runtime/pprof"
 	"sort"
 	"strings"
 	"time"
@@ -93,7 +94,13 @@ func explore(args []string) {
 	timeout := fs.Duration("timeout", 10*time.Second, "per-query timeout")
 	params := fs.String("params", "", "k=v,k=v")
 	verbose := fs.Bool("v", false, "verbose")
+	prof := fs.String("cpuprofile", "", "write cpu profile")
 	fs.Parse(args)
+	if *prof != "" {
+		f, _ := os.Create(*prof)
+		pprof.StartCPUProfile(f)
+		defer pprof.StopCPUProfile()
+	}
 	p, err := loadProgram()
 	if err != nil {
 		fmt.Fprintln(os.Stderr, err)
